@@ -20,6 +20,7 @@ pub fn exec(op: &str, input: &Value) -> (Value, Value) {
         "typeStr" => ops_types::exec_type_str(input),
         "parseTS" => ops_types::exec_parse_ts(input),
         "site" => ops_types::exec_site(input),
+        "shape" => ops_types::exec_shape(input),
         "prefix" => ops_types::exec_prefix(input),
         "name" => ops_names::exec_name(input),
         "fieldAttrs" => ops_names::exec_field_attrs(input),
@@ -95,6 +96,7 @@ fn main() {
         "graph" => ops_graph::run(&mut out, &tier, &mut rng),
         "types" => ops_types::run(&mut out, &tier, &mut rng),
         "mappings" => ops_types::run_mappings(&mut out, &tier, &mut rng),
+        "shapes" => ops_types::run_shapes(&mut out, &tier, &mut rng),
         "fields" => ops_names::run_fields(&mut out, &tier, &mut rng),
         "params" => ops_names::run_params(&mut out, &tier, &mut rng),
         "valid" => ops_valid::run(&mut out, &tier, &mut rng),
